@@ -280,7 +280,27 @@ class Provenance:
             # local: union over its assignments in func
             if func is not None:
                 tags = set()
-                for st in ast.walk(func):
+                busy = self.__dict__.setdefault('_busy', set())
+                bk = (id(func), e.id)
+                if bk in busy:
+                    return set()  # x = f(x): the other definitions decide
+                busy.add(bk)
+                try:
+                    for st in ast.walk(func):
+                        if isinstance(st, ast.Assign) and any(
+                                isinstance(t, ast.Name) and t.id == e.id
+                                for t in st.targets):
+                            tags |= self.of(mod, func, st.value, depth)
+                        if isinstance(st, ast.withitem) and isinstance(
+                                st.optional_vars, ast.Name) and \
+                                st.optional_vars.id == e.id:
+                            tags |= {'HANDLE'}
+                finally:
+                    busy.discard(bk)
+                if tags:
+                    return tags
+                tags = set()
+                for st in ():
                     if isinstance(st, ast.Assign) and any(
                             isinstance(t, ast.Name) and t.id == e.id
                             for t in st.targets):
